@@ -814,7 +814,7 @@ def KState.checkConsistency (s : KState) : M KState :=
 /-- `startup.rescan_env_vars` against the director's current environment. -/
 def KState.rescanEnvVars (s : KState) (cfg : KConfig) : M KState := do
   let changed := s.nodes.filter fun n =>
-    n.key.kind = .step ∧ !n.detached ∧ n.envs.any fun e => envValue cfg e.1 ≠ e.2.1
+    n.key.kind = .step ∧ n.envs.any fun e => envValue cfg e.1 ≠ e.2.1  -- detached steps too
   changed.foldlM (fun s n => s.markStepPending n.key) s
 
 end StepupModel.K
